@@ -201,3 +201,142 @@ def shrink(case, fails, check, ctx, budget=150):
                 break
         chunk = max(1, chunk // 2)
     return cur, cur_f
+
+
+# ------------------------------------------------------------------ generic operation cases (ops.py)
+
+ALL_DTYPE_SHARDS = [
+    ["float64"], ["float32", "bool"], ["int64", "uint8"], ["int32", "uint64"], ["int16", "uint32"], ["int8", "uint16"],
+    ["datetime64[ns]", "timedelta64[us]"], ["datetime64[us]", "timedelta64[ns]"], ["datetime64[s]", "timedelta64[s]", "datetime64[ms]"],
+    ["float64", "int64"], ["float64", "datetime64[ns]"], ["float64", "int32"],
+]
+
+
+def gen_opcase(rng, op_pool, dtypes, nmax=40, mask_kinds=None, big_p=0.0, key_kinds=None, index_p=0.5,
+               nkeys_pool=(1, 1, 1, 2, 2, 3), null_p=None, timed_p=0.3):
+    """one logical case for an operation drawn from op_pool and a value dtype the operation accepts."""
+    from .. import ops
+
+    n = int(rng.integers(1, nmax + 1)) if rng.random() >= big_p else int(rng.integers(200, 1500))
+    nkeys = gen.pick(rng, list(nkeys_pool))
+    keys = [gen.gen_key(rng, n, kind=(gen.pick(rng, key_kinds) if key_kinds else None), null_p=null_p,
+                        name=gen.pick(rng, [None, f"k{i}"])) for i in range(nkeys)]
+    lk = lkeys_ns(keys)
+    for _ in range(20):
+        op = gen.pick(rng, op_pool)
+        ok = [d for d in dtypes if ops.accepts(op, d)]
+        if ok:
+            break
+    else:
+        op, ok = "count", list(dtypes)
+    dtype = gen.pick(rng, ok)
+    val = gen.gen_vals(rng, n, dtype, name=gen.pick(rng, [None, "v"]))
+    if val["null_mode"] == "allnull_group":
+        gen.null_out_group(val, lk, rng)
+    kind = ops.KIND[op]
+    if mask_kinds is None:
+        mask_kinds = ["none", "none", "bool", "bool", "bool_series", "slice", "pos"] if kind == "red" and op in ops.RED \
+            else ["none", "bool", "bool", "bool_series"]
+    if op in ops.SEL:
+        mask_kinds = ["none"]
+    mask = gen.gen_mask(rng, n, kind=gen.pick(rng, list(mask_kinds)), lkeys=lk)
+    params = ops.gen_params(rng, op, n)
+    case = {"n": n, "keys": keys, "val": val, "mask": mask, "op": op, "params": params, "sort": bool(rng.random() < 0.8),
+            "vc": "np", "index": None}
+    if rng.random() < index_p:
+        case["vc"] = "pd"
+        if kind in ("row", "sel") or rng.random() < 0.5:
+            case["index"] = gen.gen_index(rng, n)
+    if mask is not None and mask["kind"] == "bool_series" and case["index"] is not None and case["vc"] != "pd":
+        case["index"] = None
+    if np.dtype(dtype).kind in "iu" and op in ("sum", "mean", "cumsum", "rolling_sum", "rolling_mean", "var", "std"):
+        if not int_sum_in_range(lk, logical_vals(val), None, dtype) or op in ("var", "std", "rolling_sum", "rolling_mean"):
+            case["val"] = gen.gen_vals(rng, n, dtype, magnitude="small", name=val["name"])
+    if np.dtype(dtype).kind == "m" and op in ("sum", "mean", "cumsum", "rolling_sum", "rolling_mean"):
+        pass  # timedelta magnitudes are small by construction
+    if op == "ema" and "halflife" in params and rng.random() < timed_p:
+        case["times"] = gen_times(rng, n)
+        case["params"] = {"halflife": gen.pick(rng, ["1s", "2500ms", "1h", "90s"])}
+    return case
+
+
+def gen_times(rng, n, unit="ns", start=None):
+    """non-decreasing timestamps (ns since epoch by default, after 1970), irregular with repeats."""
+    start = 1_600_000_000 if start is None else start
+    gaps = rng.choice([0, 1, 1, 2, 5, 30, 3600], size=n) * rng.choice([1, 1, 1, 0.5], size=n)
+    secs = start + np.cumsum(gaps)
+    per = 10**9 // gen.UNIT_NS[unit]
+    return {"unit": unit, "vals": [int(round(s * per)) for s in secs], "container": "np"}
+
+
+def case_is_known_dt_mean(case):
+    return False
+
+
+def with_rows(case, keep):
+    """case restricted to row positions `keep` (mask dropped; index and times restricted)."""
+    import copy
+
+    c = copy.deepcopy(case)
+    for k in c["keys"]:
+        k["vals"] = [k["vals"][i] for i in keep]
+    for name in ("val", "val2", "times"):
+        if c.get(name):
+            c[name]["vals"] = [c[name]["vals"][i] for i in keep]
+    if c.get("index") is not None:
+        c["index"]["vals"] = [c["index"]["vals"][i] for i in keep]
+    c["mask"] = None
+    c["n"] = len(keep)
+    return c
+
+
+def std_features(case, extra=()):
+    m = case.get("mask")
+    f = [f"op={case['op']}|dt={case['val']['dtype']}|mask={'none' if m is None else m['kind']}",
+         f"keys={'+'.join(k['kind'] for k in case['keys'])}"]
+    f += list(extra)
+    return f
+
+
+def perturb_vals(valspec, rows, seed):
+    """copy of valspec with the values at `rows` replaced (other values / nulls / extremes)."""
+    import copy
+
+    rng = np.random.Generator(np.random.PCG64(int(seed)))
+    v = copy.deepcopy(valspec)
+    dt = np.dtype(v["dtype"])
+    for i in rows:
+        r = rng.random()
+        if dt.kind == "f":
+            v["vals"][i] = None if r < 0.3 else (float(np.float32(1e6)) if r < 0.5 else float(rng.integers(-50, 50)))
+        elif dt.kind in "iu":
+            info = np.iinfo(dt)
+            v["vals"][i] = int(rng.integers(max(info.min, -100), min(info.max, 100) + 1))
+        elif dt.kind == "b":
+            v["vals"][i] = not v["vals"][i] if r < 0.7 else v["vals"][i]
+        else:
+            old = v["vals"][i]
+            v["vals"][i] = None if r < 0.3 else (0 if old is None else old) + int(rng.integers(-1000, 1000))
+    return v
+
+
+def run_generic(ctx, prop, op_pool, check, features, nontrivial, n_cases, shards=ALL_DTYPE_SHARDS, **genkw):
+    err = model.selfcheck() if ctx.shard == 0 else None
+    if err:
+        raise RuntimeError(err)
+    dtypes = shards[ctx.shard % len(shards)]
+    rng = gen.rng_for(ctx.seed, prop, ctx.shard, 1 if ctx.mode != "prod" else 0)
+    ncases = n_cases[ctx.tier]
+    if ctx.mode != "prod":
+        ncases = max(50, ncases // 3)
+    for _ in range(ncases):
+        case = gen_opcase(rng, op_pool, dtypes, **genkw)
+        case["pseed"] = int(rng.integers(1 << 30))
+        ctx.run_case(case, check, features, nontrivial, shrink)
+
+
+def std_plan(tier, nshards=len(ALL_DTYPE_SHARDS), bounds_quick=1):
+    p = [dict(shard=i, nshards=nshards, mode="prod") for i in range(nshards)]
+    nb = bounds_quick if tier == "quick" else nshards
+    p += [dict(shard=i, nshards=nshards, mode="bounds") for i in range(nb)]
+    return p
